@@ -122,3 +122,8 @@ pub fn prepend_path(mut err: StructError, prefix: &str) -> StructError {
     }
     err
 }
+
+#[cfg(kani)]
+mod verif_kani {
+    include!(concat!(env!("REPE_VERIF_KANI"), "/structs.rs"));
+}
